@@ -27,6 +27,8 @@ pub fn check(tier: Tier) -> Check {
         Part::new("C01/length-sweep", json!({"big": t}), 0, tier.pick(60, 600)),
         Part::new("C01/fragmentation", json!({}), tier.pick(3, 4), tier.pick(40, 600)),
         Part::new("C01/fragmentation-uniform", json!({}), 0, 60),
+        // the second transmission of a publish (session resume, hook H1) carries the caller's values too
+        Part::new("C01/resume", json!({"depth": 3, "expiry": 1000, "secs_ago": 10, "rich": true}), 0, 60),
         Part::new("C01/fragmentation-uniform", json!({"flavour": 3}), 0, 60),
         Part::new("C01/fragmentation-uniform", json!({"flavour": 4}), 0, 60),
         Part::new("C01/fragmentation", json!({"flavour": 4}), 1, tier.pick(40, 600)),
@@ -239,6 +241,9 @@ fn report_c01(mut sys: Sys, ex: &mut Exec, wrote: bool) {
 }
 
 pub fn scenario(name: &str, params: &Value) -> Scenario {
+    if name == "C01/resume" {
+        return super::c17::scenario_for("C01", name, params);
+    }
     let params = params.clone();
     let name = name.to_string();
     match name.as_str() {
